@@ -51,14 +51,14 @@ COMPONENTS_STUB = ["thread scheduling (baton; real threads, one runnable)",
 ASSUMPTIONS = ["pre-emption points = line events in the watched files and "
                "lock operations"]
 
-FAMS = ["rsa", "cache", "verifierdb", "cache_seq", "cache", "rsa",
-        "verifierdb", "verifierdb"]
+FAMS = ["rsa", "cache", "verifierdb", "cache_seq", "cache", "verifierdb",
+        "verifierdb", "verifierdb", "cache", "verifierdb"]
 WATCH = ("tlslite/utils/python_rsakey.py", "tlslite/sessioncache.py",
          "tlslite/basedb.py", "tlslite/verifierdb.py")
 
 
 def plan(tier, base_seed):
-    n = {"quick": 2400, "thorough": 400000}[tier]
+    n = {"quick": 5000, "thorough": 400000}[tier]
     jobs = [{"seed": base_seed * 1000003 + i, "fam": FAMS[i % len(FAMS)]}
             for i in range(n)]
     for j in jobs[:4]:
